@@ -42,6 +42,11 @@ type Options struct {
 	SMOpt        func(shardID, replicaID uint64) SMOptions
 	// SaveDelay widens the window between persisting and sending.
 	SaveDelay time.Duration
+	// Wire: real TCP transport on loopback behind byte-level proxies, NodeHost
+	// directories on the real file system under WireDir (wire.go). Power loss is
+	// not available in this mode: Crash is a graceful stop.
+	Wire    bool
+	WireDir string
 }
 
 // Shadow is the durable state of one replica as acknowledged by the log
@@ -68,7 +73,11 @@ func (s *Shadow) clone() *Shadow {
 type Host struct {
 	Index   int
 	Addr    string
-	FS      *gvfs.MemFS
+	FS      *gvfs.MemFS // nil in wire mode
+	Disk    gvfs.FS     // the file system the NodeHost runs on (FS, or the real one in wire mode)
+	Listen  string      // wire mode: the address the NodeHost listens on (Addr is the proxy's)
+	Proxy   *Proxy
+	Dir     string
 	NH      *dragonboat.NodeHost
 	c       *Cluster
 	mu      sync.Mutex
@@ -157,8 +166,21 @@ func NewCluster(opt Options, sink Sink) *Cluster {
 	}
 	c.SMs = NewSMRegistry(c.Clock, sink, smopt)
 	for i := 0; i < opt.Hosts; i++ {
-		h := &Host{Index: i, Addr: fmt.Sprintf("host%d:%d", i+1, 26000+i), FS: gvfs.NewStrictMem(), c: c,
+		h := &Host{Index: i, Addr: fmt.Sprintf("host%d:%d", i+1, 26000+i), c: c,
 			shadows: map[[2]uint64]*Shadow{}}
+		if opt.Wire {
+			h.Disk = gvfs.Default
+			h.Dir = fmt.Sprintf("%s/h%d", opt.WireDir, i+1)
+			listen, p, err := wireHostSetup(c, i, h.Dir)
+			if err != nil {
+				panic(err)
+			}
+			h.Listen, h.Proxy, h.Addr = listen, p, p.Addr
+		} else {
+			h.FS = gvfs.NewStrictMem()
+			h.Disk = h.FS
+			h.Dir = "/nh"
+		}
 		c.Hosts = append(c.Hosts, h)
 	}
 	return c
@@ -270,7 +292,7 @@ func (r *recLogDB) RemoveEntriesTo(shardID uint64, replicaID uint64, index uint6
 						ok = false
 					}
 				}()
-				return ss.Validate(r.h.FS)
+				return ss.Validate(r.h.Disk)
 			}()
 			for try := 0; !ok && try < 5; try++ {
 				// the snapshot worker may have recorded a newer snapshot and removed the directory of
@@ -287,7 +309,7 @@ func (r *recLogDB) RemoveEntriesTo(shardID uint64, replicaID uint64, index uint6
 							ok = false
 						}
 					}()
-					return ss.Validate(r.h.FS)
+					return ss.Validate(r.h.Disk)
 				}()
 			}
 			if !ok && r.loads(ss.Filepath) {
@@ -299,11 +321,11 @@ func (r *recLogDB) RemoveEntriesTo(shardID uint64, replicaID uint64, index uint6
 			}
 			if !ok {
 				state := "missing"
-				if fi, err := r.h.FS.Stat(ss.Filepath); err == nil {
+				if fi, err := r.h.Disk.Stat(ss.Filepath); err == nil {
 					state = fmt.Sprintf("present with %d bytes", fi.Size())
 				}
 				var siblings []string
-				if l, err := r.h.FS.List(r.h.FS.PathDir(r.h.FS.PathDir(ss.Filepath))); err == nil {
+				if l, err := r.h.Disk.List(r.h.Disk.PathDir(r.h.Disk.PathDir(ss.Filepath))); err == nil {
 					siblings = l
 				}
 				r.h.mu.Lock()
@@ -327,7 +349,7 @@ func (r *recLogDB) loads(fp string) (ok bool) {
 			ok = false
 		}
 	}()
-	rd, _, err := rsm.NewSnapshotReader(fp, r.h.FS)
+	rd, _, err := rsm.NewSnapshotReader(fp, r.h.Disk)
 	if err != nil {
 		return false
 	}
@@ -393,13 +415,13 @@ func (h *Host) Crashed() bool {
 func (h *Host) nhConfig() config.NodeHostConfig {
 	c := h.c
 	cfg := config.NodeHostConfig{
-		NodeHostDir:    "/nh",
+		NodeHostDir:    h.Dir,
 		RTTMillisecond: c.Opt.RTTMs,
 		RaftAddress:    h.Addr,
 		DeploymentID:   77,
 		NotifyCommit:   c.Opt.NotifyCommit,
 		Expert: config.ExpertConfig{
-			FS:               h.FS,
+			FS:               h.Disk,
 			LogDBFactory:     &logdbFactory{h: h},
 			TransportFactory: &TransportFactory{Net: c.Net},
 			LogDB:            config.GetTinyMemLogDBConfig(),
@@ -407,6 +429,10 @@ func (h *Host) nhConfig() config.NodeHostConfig {
 		RaftEventListener: &leaderListener{c: c, host: h.Index},
 	}
 	cfg.Expert.Engine = config.EngineConfig{ExecShards: 2, CommitShards: 2, ApplyShards: 2, SnapshotShards: 2, CloseShards: 2}
+	if c.Opt.Wire {
+		cfg.ListenAddress = h.Listen
+		cfg.Expert.TransportFactory = &WireTransportFactory{Net: c.Net}
+	}
 	return cfg
 }
 
@@ -579,8 +605,10 @@ func (h *Host) CrashInstant() {
 	}
 	h.crashed = true
 	h.CrashStamp = h.c.Clock.Now()
-	h.FS.SetIgnoreSyncs(true)
-	h.c.SMs.Freeze(h.Index)
+	if h.FS != nil {
+		h.FS.SetIgnoreSyncs(true)
+		h.c.SMs.Freeze(h.Index)
+	}
 	frozen := map[[2]uint64]*Shadow{}
 	for k, s := range h.shadows {
 		frozen[k] = s.clone()
@@ -600,9 +628,11 @@ func (h *Host) CrashFinish() map[[2]uint64]*Shadow {
 	if nh != nil {
 		nh.Close()
 	}
-	h.FS.ResetToSyncedState()
-	h.FS.SetIgnoreSyncs(false)
-	h.c.SMs.PowerLoss(h.Index)
+	if h.FS != nil {
+		h.FS.ResetToSyncedState()
+		h.FS.SetIgnoreSyncs(false)
+		h.c.SMs.PowerLoss(h.Index)
+	}
 	h.mu.Lock()
 	// after the restart the shadow restarts from what is durable
 	h.shadows = map[[2]uint64]*Shadow{}
@@ -633,8 +663,15 @@ func (c *Cluster) StartAll() error {
 	return nil
 }
 
-// StopAll closes every running NodeHost.
+// StopAll closes every running NodeHost (and, in wire mode, the proxies).
 func (c *Cluster) StopAll() {
+	defer func() {
+		for _, h := range c.Hosts {
+			if h.Proxy != nil {
+				h.Proxy.Close()
+			}
+		}
+	}()
 	var wg sync.WaitGroup
 	for _, h := range c.Hosts {
 		wg.Add(1)
